@@ -582,7 +582,7 @@ def run(ctx):
            'non-empty, or a reviewed construct (%d sites; unguarded: %s)' % (n_sc, sc_bad),
            gmod, gmod.func('Group.set_center'))
     lig = gmod.func('is_ligand_group_by_groups')
-    oco = [r for r in walk_no_nested(lig) if isinstance(r, ast.Return)
+    oco = [r for r in walk_no_nested(lig) if isinstance(r, (ast.Return, ast.Assign))
            and isinstance(r.value, ast.Call) and call_name(r.value) == 'OCOGroup']
     lcan = canon(lig)
     lparam = func_params(lig)[-1]
@@ -599,10 +599,10 @@ def run(ctx):
             return True
         return isinstance(arg, ast.ListComp) and len(arg.generators) == 1 \
             and norm(arg.generators[0].iter) == src and norm(arg.elt) == norm(arg.generators[0].target)
-    oco_ok = len(oco) == 1 and any(two_oxygens(e, p) for e, p in facts_at(oco[0], lig))
+    oco_ok = bool(oco) and all(any(two_oxygens(e, p) for e, p in facts_at(site, lig)) for site in oco)
     others = [1 for m2, q2, f2 in prog.all_funcs() for c in calls_in(f2, nested=False)
               if call_name(c) == 'OCOGroup']
-    ctx.ob('C12.R2', 'lemma:OCO-two-oxygens', oco_ok and len(others) == 1,
+    ctx.ob('C12.R2', 'lemma:OCO-two-oxygens', oco_ok and len(others) == len(oco),
            'an OCO group is created only for a carbon with two bonded carboxylate oxygens', gmod,
            oco[0] if oco else lig)
     ver = cfg.get('version')
